@@ -22,6 +22,10 @@ TEXTS = {
     "ascii": "hello world",
     "long": "the quick brown fox jumps over",
     "nl": "ab\ncd e\n",
+    # multi-line texts whose widest line is NOT the line with most code points / bytes (fixed sizing packs to the widest line)
+    "nlw": "abc\n\u5b57\u754c",                 # 3 code points / 3 columns over 2 code points / 4 columns
+    "nlwb": "abcde\n\u5b57\u754c",              # as bytes (utf8): 5 bytes / 5 columns over 6 bytes / 4 columns
+    "nlz": "e\u0301e\u0301e\u0301\nabcd",      # 6 code points / 3 columns over 4 code points / 4 columns
     "sp": "  a  b  ",
     "cjk": "字界 漢字x",
     "cjk1": "字",
@@ -153,6 +157,7 @@ class World:
                 cols, rows = self._dims(size)
                 self.last = (cols, rows)
                 self.last_size = tuple(size)
+                self.last_focus = bool(focus)
                 world.log.append(("render", self.pid, cols, rows, 1 if focus else 0))
                 ch = chr(64 + self.pid).encode()
                 cursor = None
@@ -162,7 +167,16 @@ class World:
                                         check_width=False)
 
             def keypress(self, size, key):
+                """'left' / 'right' move the probe's own cursor by one cell inside the size it is given (handled);
+                every other key is not handled."""
                 world.log.append(("key", self.pid, key))
+                cols, _rows = self._dims(size)
+                if self._sel and self.policy != "nocursor" and key in ("left", "right"):
+                    x = self.cur[0] + (1 if key == "right" else -1)
+                    if 0 <= x < cols:
+                        self.cur = (x, self.cur[1])
+                        self._invalidate()
+                        return None
                 return key
 
             def mouse_event(self, size, event, button, col, row, focus):
@@ -216,6 +230,7 @@ class World:
                     canv = base.render(self, size, focus)
                     self.last = (canv.cols(), canv.rows())
                     self.last_size = tuple(size)
+                    self.last_focus = bool(focus)
                     world.log.append(("render", self.pid, canv.cols(), canv.rows(), 1 if focus else 0))
                     c = urwid.CompositeCanvas(canv)
                     c.fill_attr(f"p{self.pid}")
@@ -443,14 +458,16 @@ def depth(t) -> int:
 
 
 # ---------------------------------------------------------------------------------------------------
-def observe_render(w, size, focus, enc):
-    """One C01 event: what rows()/pack()/render() really returned for one size and focus flag."""
+def _observe(w, size, focus, enc, clear=True, on_render=None):
+    """What rows()/pack()/render() really returned for one size and focus flag -> (event, canvas or None).
+    clear=False: the canvas cache is left alone (histories with held canvases)."""
     import urwid
 
     mode = ("fixed", "flow", "box")[len(size)]
     e = {"t": "render", "mode": mode, "c": size[0] if size else 0, "r": size[1] if len(size) == 2 else 0, "focus": 1 if focus else 0,
          "rows_call": -1, "pc": -1, "pr": -1, "calc_exc": "", "exc": "", "cc": -1, "cr": -1, "content": [], "cur": [], "curkind": "none"}
-    urwid.CanvasCache.clear()
+    if clear:
+        urwid.CanvasCache.clear()
     try:
         if mode == "flow":
             e["rows_call"] = int(w.rows(size, focus))
@@ -459,19 +476,121 @@ def observe_render(w, size, focus, enc):
             e["pc"], e["pr"] = int(p[0]), int(p[1])
     except Exception as ex:  # noqa: BLE001
         e["calc_exc"] = type(ex).__name__
-    urwid.CanvasCache.clear()
+    if clear:
+        urwid.CanvasCache.clear()
+    if on_render:
+        on_render()
+    canv = None
     try:
         canv = w.render(size, focus)
-        e["cc"], e["cr"] = int(canv.cols()), int(canv.rows())
-        e["content"] = [row_widths(row, enc) for row in canv.content()]
-        cur = canv.cursor
-        if cur is not None:
-            e["cur"] = [int(cur[0]), int(cur[1])]
-            e["curkind"] = "xy"
+        _measure(canv, enc, e)
     except Exception as ex:  # noqa: BLE001
         e["exc"] = type(ex).__name__
         e["exc_msg"] = str(ex)[:200]
-    return e
+        canv = None
+    return e, canv
+
+
+def _measure(canv, enc, e):
+    e["cc"], e["cr"] = int(canv.cols()), int(canv.rows())
+    e["content"] = [row_widths(row, enc) for row in canv.content()]
+    cur = canv.cursor
+    if cur is not None:
+        e["cur"] = [int(cur[0]), int(cur[1])]
+        e["curkind"] = "xy"
+
+
+def observe_render(w, size, focus, enc):
+    """One C01 event: what rows()/pack()/render() really returned for one size and focus flag (fresh canvas cache)."""
+    return _observe(w, size, focus, enc)[0]
+
+
+def walk_paths(t, w, path=()):
+    """(path of 1-based child indices, subterm, real widget), pre-order."""
+    yield list(path), t, w
+    for i, (ct, cw) in enumerate(zip(t["c"], children_of(t, w)), 1):
+        yield from walk_paths(ct, cw, (*path, i))
+
+
+def subterm(t, path):
+    for i in path:
+        t = t["c"][i - 1]
+    return t
+
+
+FRAME_OPS = ("root", "sub", "again", "inval")
+
+
+def observe_frames(t, w, size, focus, enc, max_sub, seed):
+    """One C01 history ("frames"): the canvas cache is cleared once, then every canvas obtained is HELD (as the screen
+    holds the last frame) while
+      root   the root is rendered at (size, focus);
+      sub    every widget of the tree the root rendered is rendered directly at each (size, focus) its parent gave it;
+      again  the root is rendered again;
+      inval  the root is invalidated and rendered again (children come from the cache);
+      held   every held canvas is measured again (event index of the rendering that returned it).
+    Nothing is judged here."""
+    import random
+
+    import urwid
+
+    rng = random.Random(seed)
+    ev, held = [], []          # held: (event number (1-based), canvas)
+    nodes = list(walk_paths(t, w))
+    given = {}
+
+    def spy(idx, sw):
+        orig = sw.render
+
+        def render(sz, focus=False):
+            given.setdefault(idx, [])
+            g = (tuple(sz), bool(focus))
+            if g not in given[idx]:
+                given[idx].append(g)
+            return orig(sz, focus)
+
+        sw.render = render
+
+    def frame(op, path, sw, sz, fc, on_render=None):
+        h0 = urwid.CanvasCache.hits
+        e, canv = _observe(sw, sz, fc, enc, clear=False, on_render=on_render)
+        e["t"], e["op"], e["path"] = "frame", op, list(path)
+        e["hit"] = 1 if urwid.CanvasCache.hits > h0 else 0       # some canvas came out of the cache (coverage only)
+        try:
+            e["szg"] = sorted(str(getattr(m, "value", m)) for m in sw.sizing())
+        except Exception:  # noqa: BLE001
+            e["szg"] = []
+        ev.append(e)
+        if canv is not None:
+            held.append((len(ev), canv))
+
+    urwid.CanvasCache.clear()
+
+    def start():
+        for idx, (_p, _st, sw) in enumerate(nodes):
+            if idx:
+                spy(idx, sw)
+
+    frame("root", [], w, size, focus, on_render=start)
+    for _p, _st, sw in nodes:
+        sw.__dict__.pop("render", None)
+    subs = [(idx, g) for idx in sorted(given) for g in given[idx]]
+    if len(subs) > max_sub:
+        subs = sorted(rng.sample(subs, max_sub))
+    for idx, (sz, fc) in subs:
+        path, _st, sw = nodes[idx]
+        frame("sub", path, sw, sz, fc)
+    frame("again", [], w, size, focus)
+    w._invalidate()
+    frame("inval", [], w, size, focus)
+    for ref, canv in held:
+        h = {"t": "held", "ref": ref, "cc": -1, "cr": -1, "content": [], "cur": [], "exc": ""}
+        try:
+            _measure(canv, enc, h)
+        except Exception as ex:  # noqa: BLE001
+            h["exc"] = type(ex).__name__
+        ev.append(h)
+    return ev
 
 
 def sizes_for(modes, cols, rows):
@@ -518,9 +637,15 @@ def _grid(canv):
     return [row_ids(r) for r in canv.content()]
 
 
-def observe_geometry(t, enc, size, max_press, max_move, seed):
+STEP_KEYS = ("left", "right", "up", "down", "home", "end", "x", "backspace", "delete")
+
+
+def observe_geometry(t, enc, size, max_press, max_move, seed, max_steps=0):
     """One C09 trace: the focused rendering, then a button-1 press and a move_cursor_to_coords per cell, each
-    applied to a copy of the widget in the rendered state.  Nothing is judged here."""
+    applied to a copy of the widget in the rendered state; then a history on a copy in the rendered state (the canvas of
+    the last frame is held, as a screen holds it): keys sent to the root / the cursor of a leaf moved by the application,
+    each followed by get_cursor_coords BEFORE anything is rendered again and then by the focused rendering.
+    Nothing is judged here."""
     import random
 
     import urwid
@@ -543,77 +668,100 @@ def observe_geometry(t, enc, size, max_press, max_move, seed):
     except Exception as ex:  # noqa: BLE001
         tr["build_exc"] = f"{type(ex).__name__}: {str(ex)[:120]}"
         return tr
-    given = {}
 
-    def spy(idx, sw):
-        orig = sw.render
+    def snapshot(wd, w, e, with_acc, clear_first):
+        """Fill e with the three views of the geometry of w in its present state: the cursor reported without rendering,
+        the cursor of the focused rendering, the grid of painted ids with what every widget on the way was given.
+        clear_first=False: get_cursor_coords and the first focused rendering see the caches as the history left them."""
+        given = {}
 
-        def render(sz, focus=False):
-            given[idx] = (tuple(sz), bool(focus))
-            return orig(sz, focus)
+        def spy(idx, sw):
+            orig = sw.render
 
-        sw.render = render
+            def render(sz, focus=False):
+                given[idx] = (tuple(sz), bool(focus))
+                return orig(sz, focus)
 
-    pairs = list(walk(t, w))
-    for idx, (_st, sw) in enumerate(pairs):
-        spy(idx, sw)
-    e = {"t": "render", "nodes": [], "grid": [], "cc": 0, "cr": 0, "gcc": [], "rcur": [], "leaves": [], "exc": "", "skipcur": 0}
-    tr["ev"].append(e)
-    try:
-        urwid.CanvasCache.clear()
-        gcc = w.get_cursor_coords(size) if hasattr(w, "get_cursor_coords") else None
-        e["gcc"] = _cur(gcc)
-    except Exception as ex:  # noqa: BLE001
-        e["exc"] = "get_cursor_coords:" + type(ex).__name__
-    try:
-        canv = focused_render(w)
-        grid = _grid(canv)
-        e["grid"], e["cc"], e["cr"], e["rcur"] = grid, canv.cols(), canv.rows(), _cur(canv.cursor)
-    except Exception as ex:  # noqa: BLE001  (rendering is C01's business: no geometry to compare)
-        tr["ev"] = []
-        tr["render_exc"] = type(ex).__name__
-        return tr
-    if any(len(r) != len(grid[0]) for r in grid):
-        tr["ev"] = []
-        tr["render_exc"] = "ragged"
-        return tr
-    for idx, (st, sw) in enumerate(pairs):
-        sw.__dict__.pop("render", None)
-        if idx in given and len(given[idx][0]) == 2:
+            sw.render = render
+
+        pairs = list(walk(t, w))
+        e.update({"nodes": [], "grid": [], "cc": 0, "cr": 0, "gcc": [], "rcur": [], "leaves": [], "exc": "", "skipcur": 0})
+        try:
+            if clear_first:
+                urwid.CanvasCache.clear()
+            gcc = w.get_cursor_coords(size) if hasattr(w, "get_cursor_coords") else None
+            e["gcc"] = _cur(gcc)
+        except Exception as ex:  # noqa: BLE001
+            e["exc"] = "get_cursor_coords:" + type(ex).__name__
+        try:
+            if not clear_first:
+                e["rcur"] = _cur(w.render(size, True).cursor)      # the frame a screen would draw next
+            for idx, (_st, sw) in enumerate(pairs):
+                spy(idx, sw)
             try:
-                modes = {str(getattr(m, "value", m)) for m in sw.sizing()}
-                if "flow" in modes:
-                    (gc, gr), gf = given[idx]
-                    e["nodes"].append({"kind": st["k"], "given": int(gr), "need": int(sw.rows((gc,), gf))})
-            except Exception:  # noqa: BLE001
-                e["nodes"].append({"kind": st["k"], "given": 0, "need": 1})
-    for lt, bg in tagged_leaves(t):
-        pid = lt["o"][0]
-        lw = wd.probes.get(pid)
-        rendered = lw is not None and lw.last is not None
-        info = {"id": pid, "kind": lt["k"], "bg": bg, "rendered": 1 if rendered else 0, "w": 0, "h": 0, "sel": 0, "cursor": 0, "acc": []}
-        if rendered:
-            info["w"], info["h"] = int(lw.last[0]), int(lw.last[1])
-            info["sel"] = 1 if lw.selectable() else 0
-            info["cursor"] = 0 if (lt["k"] == "Probe" and lt["o"][5] == "nocursor") or not hasattr(lw, "move_cursor_to_coords") else 1
-            if info["sel"] and info["cursor"] and not bg and info["w"] * info["h"] <= 64:
-                acc = []
-                for y in range(info["h"]):
-                    rowacc = []
-                    for x in range(info["w"]):
-                        try:
-                            cp = World().build(lt, enc)
-                            cp.render(lw.last_size, True)
-                            rowacc.append(1 if cp.move_cursor_to_coords(lw.last_size, x, y) else 0)
-                        except Exception:  # noqa: BLE001
-                            rowacc.append(0)
-                    acc.append(rowacc)
-                info["acc"] = acc
-            else:
-                info["cursor"] = 0      # move events on this leaf are not judged
-        if not info["acc"]:
-            info["acc"] = [[0] * max(info["w"], 1)] * max(info["h"], 1)
-        e["leaves"].append(info)
+                canv = focused_render(w)
+            finally:
+                for _st, sw in pairs:
+                    sw.__dict__.pop("render", None)
+            grid = _grid(canv)
+            e["grid"], e["cc"], e["cr"] = grid, canv.cols(), canv.rows()
+            if clear_first:
+                e["rcur"] = _cur(canv.cursor)
+        except Exception as ex:  # noqa: BLE001  (rendering is C01's business: no geometry to compare)
+            return type(ex).__name__, None
+        if any(len(r) != len(grid[0]) for r in grid):
+            return "ragged", None
+        for idx, (st, sw) in enumerate(pairs):
+            if idx in given and len(given[idx][0]) == 2:
+                try:
+                    modes = {str(getattr(m, "value", m)) for m in sw.sizing()}
+                    if "flow" in modes:
+                        (gc, gr), gf = given[idx]
+                        e["nodes"].append({"kind": st["k"], "given": int(gr), "need": int(sw.rows((gc,), gf))})
+                except Exception:  # noqa: BLE001
+                    e["nodes"].append({"kind": st["k"], "given": 0, "need": 1})
+        for lt, bg in tagged_leaves(t):
+            pid = lt["o"][0]
+            lw = wd.probes.get(pid)
+            rendered = lw is not None and lw.last is not None
+            info = {"id": pid, "kind": lt["k"], "bg": bg, "rendered": 1 if rendered else 0, "w": 0, "h": 0, "sel": 0, "cursor": 0, "acc": [], "acur": []}
+            if rendered:
+                info["w"], info["h"] = int(lw.last[0]), int(lw.last[1])
+                info["sel"] = 1 if lw.selectable() else 0
+                info["cursor"] = 0 if (lt["k"] == "Probe" and lt["o"][5] == "nocursor") or not hasattr(lw, "move_cursor_to_coords") else 1
+                if with_acc and info["sel"] and info["cursor"] and not bg and info["w"] * info["h"] <= 64:
+                    acc, acur = [], []
+                    for y in range(info["h"]):
+                        rowacc, rowcur = [], []
+                        for x in range(info["w"]):
+                            try:
+                                cp = World().build(lt, enc)
+                                cp.render(lw.last_size, lw.last_focus)      # the state the leaf is in inside the tree (an Edit scrolls to its cursor only in focus)
+                                rowacc.append(1 if cp.move_cursor_to_coords(lw.last_size, x, y) else 0)
+                                # where the leaf itself then shows its cursor (its own choice inside its own area)
+                                rowcur.append(_cur(cp.get_cursor_coords(lw.last_size)) if rowacc[-1] else [])
+                            except Exception:  # noqa: BLE001
+                                rowacc.append(0)
+                                rowcur.append([])
+                        acc.append(rowacc)
+                        acur.append(rowcur)
+                    info["acc"], info["acur"] = acc, acur
+                else:
+                    info["cursor"] = 0      # move events on this leaf are not judged
+            if not info["acc"]:
+                info["acc"] = [[0] * max(info["w"], 1)] * max(info["h"], 1)
+                info["acur"] = [[[]] * max(info["w"], 1)] * max(info["h"], 1)
+            e["leaves"].append(info)
+        return "", canv
+
+    e = {"t": "render"}
+    tr["ev"].append(e)
+    err, canv = snapshot(wd, w, e, True, True)
+    if err:
+        tr["ev"] = []
+        tr["render_exc"] = err
+        return tr
+    grid = e["grid"]
     cells = [(c, r) for r in range(len(grid)) for c in range(len(grid[0])) if grid[r][c] > 0]
     press_cells = cells if len(cells) <= max_press else rng.sample(cells, max_press)
     for col, row in press_cells:
@@ -637,7 +785,20 @@ def observe_geometry(t, enc, size, max_press, max_move, seed):
             except Exception:  # noqa: BLE001
                 break
     if hasattr(w, "move_cursor_to_coords"):
-        move_cells = cells if len(cells) <= max_move else rng.sample(cells, max_move)
+        # boundary cells first: the corners of the area of every leaf that takes part in the cursor protocol (where the
+        # areas of neighbours meet), then cells drawn at random
+        corners = []
+        for lf in e["leaves"]:
+            own = [(c, r) for (c, r) in cells if grid[r][c] == lf["id"]]
+            if own and lf["sel"] and lf["cursor"] and not lf["bg"]:
+                xs, ys = [c for c, _ in own], [r for _, r in own]
+                for xy in ((min(xs), min(ys)), (min(xs), max(ys)), (max(xs), min(ys)), (max(xs), max(ys))):
+                    if xy in own and xy not in corners:
+                        corners.append(xy)
+        n_corner = min(len(corners), max(1, (max_move * 2) // 3))
+        move_cells = rng.sample(corners, n_corner) if corners else []
+        others = [xy for xy in cells if xy not in move_cells]
+        move_cells += others if len(others) <= max_move - len(move_cells) else rng.sample(others, max(0, max_move - len(move_cells)))
         for col, row in move_cells:
             me = {"t": "move", "col": col, "row": row, "ret": 0, "asked": [], "gcc_after": [], "rcur_after": [], "exc": "", "gcc_exc": ""}
             try:
@@ -660,4 +821,40 @@ def observe_geometry(t, enc, size, max_press, max_move, seed):
                 except Exception as ex:  # noqa: BLE001
                     me["gcc_exc"] = "get_cursor_coords:" + type(ex).__name__
             tr["ev"].append(me)
+    # ---- history --------------------------------------------------------------------------------------------------
+    if max_steps > 0:
+        try:
+            wd, w = fresh()
+            held = [focused_render(w)]            # the frame on the screen
+            if _grid(held[0]) != grid or not w.selectable():
+                return tr
+        except Exception:  # noqa: BLE001
+            return tr
+        for _ in range(max_steps):
+            se = {"t": "step", "op": "key", "key": "", "pid": 0, "x": 0, "y": 0, "handled": 0, "op_exc": ""}
+            movable = [(pid, lw) for pid, lw in sorted(wd.probes.items()) if lw.last is not None and hasattr(lw, "move_cursor_to_coords")]
+            r = rng.random()
+            try:
+                if r < 0.7 or not movable:
+                    se["key"] = rng.choice(STEP_KEYS)
+                    se["handled"] = 1 if w.keypress(size, se["key"]) is None else 0
+                else:
+                    pid, lw = rng.choice(movable)
+                    se["pid"] = pid
+                    if hasattr(lw, "set_edit_pos"):        # the application moves the cursor of an Edit
+                        se["op"], se["x"] = "setpos", rng.randint(0, len(lw.edit_text))
+                        lw.set_edit_pos(se["x"])
+                    else:                                  # ... of a probe
+                        se["op"], se["x"], se["y"] = "probecur", rng.randrange(max(1, lw.last[0])), rng.randrange(max(1, lw.last[1]))
+                        lw.cur = (se["x"], se["y"])
+                        lw._invalidate()
+            except Exception as ex:  # noqa: BLE001  (a key that raises is not C09's business: the history ends here)
+                tr["step_exc"] = type(ex).__name__
+                break
+            err, canv = snapshot(wd, w, se, False, False)
+            if err:
+                tr["step_exc"] = "render:" + err
+                break
+            held.append(canv)
+            tr["ev"].append(se)
     return tr
